@@ -232,10 +232,58 @@ func (*c05) Impl(c Case) []string {
 			if second := run(); second != first {
 				return first + " again: " + second
 			}
+			{
+				// the same listing once more, with a caller that does not decline after k items but
+				// cancels its context then and keeps accepting: the listing is complete or ends in an
+				// error, never silently short
+				if bad := c05CancelPass(reg, s); bad != "" {
+					return first + " cancel: " + bad
+				}
+			}
 			return first
 		})
 	}
 	return out
+}
+
+func c05CancelPass(reg ociregistry.Interface, s c05Spec) string {
+	list := func(ctx context.Context, onItem func(n int)) (items []string, gotErr bool) {
+		var it ociregistry.Seq[string]
+		if s.what == "repos" {
+			it = reg.Repositories(ctx, s.start)
+		} else {
+			it = reg.Tags(ctx, c05Repo, s.start)
+		}
+		it(func(item string, err error) bool {
+			if err != nil {
+				gotErr = true
+				return false
+			}
+			items = append(items, item)
+			onItem(len(items))
+			return true
+		})
+		return
+	}
+	full, fullErr := list(context.Background(), func(int) {})
+	ctx, cancel := context.WithCancel(context.Background())
+	defer cancel()
+	at := s.k
+	if at <= 0 {
+		at = 1 // no declining point in this case: cancel after the first item
+	}
+	got, gotErr := list(ctx, func(n int) {
+		if n == at {
+			cancel()
+		}
+	})
+	if gotErr || fullErr {
+		return "" // ended in an error: allowed
+	}
+	if len(got) != len(full) {
+		return fmt.Sprintf("silently-short %d of %d items, no error, after the context was cancelled at item %d", len(got), len(full), at)
+	}
+	return ""
 }
 
 // expected is the specification, computed independently of the implementation and of the Lean model.
